@@ -20,6 +20,85 @@ fn first_group_ts(g: &usvg::Group) -> usvg::Transform {
     }
 }
 
+fn first_clip_group(g: &usvg::Group) -> Option<&usvg::Group> {
+    for n in g.children() {
+        if let usvg::Node::Group(c) = n {
+            if c.clip_path().is_some() {
+                return Some(c);
+            }
+            if let Some(f) = first_clip_group(c) {
+                return Some(f);
+            }
+        }
+    }
+    None
+}
+
+fn first_path(g: &usvg::Group) -> Option<&usvg::Path> {
+    for n in g.children() {
+        match n {
+            usvg::Node::Path(p) => return Some(p),
+            usvg::Node::Group(c) => {
+                if let Some(p) = first_path(c) {
+                    return Some(p);
+                }
+            }
+            _ => {}
+        }
+    }
+    None
+}
+
+/// `use` of a symbol with the given size attributes in a viewport vw x vh: "<clip w> <clip h> | <child w> <child h>"
+fn use_symbol_sizes(rng: &mut Rng, c: &mut Corr) {
+    let units = [("", "none"), ("px", "px"), ("in", "in"), ("mm", "mm"), ("pt", "pt"), ("%", "percent"), ("%", "percent"), ("%", "percent"), ("em", "em")];
+    let mut side = |rng: &mut Rng| -> (String, String) {
+        match rng.below(8) {
+            0 => (String::new(), "absent".to_string()),
+            _ => {
+                let (suffix, uname) = *rng.pick(&units);
+                let n = match rng.below(16) {
+                    0 => num("0".into()),
+                    1 => num("-5".into()),
+                    2 => num("50".into()),
+                    3 => num("100".into()),
+                    _ => gen_len(rng, true),
+                };
+                (format!(r#"{}{}"#, n.text, suffix), format!("{}:{:016x}", uname, n.f64v.to_bits()))
+            }
+        }
+    };
+    let (wt, wr) = side(rng);
+    let (ht, hr) = side(rng);
+    let (vw, vh) = (gen_len(rng, true), gen_len(rng, true));
+    let mut attrs = String::new();
+    if !wt.is_empty() {
+        attrs += &format!(r#" width="{}""#, wt);
+    }
+    if !ht.is_empty() {
+        attrs += &format!(r#" height="{}""#, ht);
+    }
+    let svg = format!(
+        r##"<svg xmlns="http://www.w3.org/2000/svg" xmlns:xlink="http://www.w3.org/1999/xlink" width="{}" height="{}"><defs><symbol id="s"><rect width="50%" height="25%"/></symbol></defs><use xlink:href="#s"{}/></svg>"##,
+        vw.text, vh.text, attrs
+    );
+    let o = opts();
+    let Ok(t) = usvg::Tree::from_str(&svg, &o) else { return };
+    let wh = |r: usvg::Rect| format!("{} {}", hx(r.width()), hx(r.height()));
+    let clip = match first_clip_group(t.root()) {
+        Some(g) => match g.clip_path().and_then(|cp| first_path(cp.root())) {
+            Some(p) => wh(p.data().bounds()),
+            None => "clip-without-path".to_string(),
+        },
+        None => "noclip".to_string(),
+    };
+    let child = match first_path(t.root()) {
+        Some(p) => wh(p.data().bounds()),
+        None => "nochild".to_string(),
+    };
+    c.emit(&format!("usesym {} {} {} {} {} {}", wr, hr, hx(vw.f32v), hx(vh.f32v), hx(o.dpi), hx(o.font_size)), &format!("{} | {}", clip, child));
+}
+
 fn gen_matrix(rng: &mut Rng) -> Vec<Num> {
     let pool = ["1", "0", "0.5", "2", "-1", "1.5", "0.25", "3", "-0.5", "10", "0.1", "7.25"];
     match rng.below(4) {
@@ -58,6 +137,8 @@ pub fn corr(tier: &str, seed: u64, c: &mut Corr) {
     let n = if tier == "thorough" { 4000 } else { 400 };
     let o = opts();
     for i in 0..n {
+        // ---- the size of a `use` of a symbol
+        use_symbol_sizes(&mut rng, c);
         // ---- transform + transform-origin
         let m = gen_matrix(&mut rng);
         let valid = (m[0].f32v * m[3].f32v - m[1].f32v * m[2].f32v).abs() > 1e-3;
